@@ -1742,6 +1742,7 @@ theorem np_tryCatch_bind {β : Type} {x : M Unit} {k : Option Fail → M β} (hx
     | destExists => exact hsome .destExists (by simp) s1 s' h
     | rollbackErr => exact hsome .rollbackErr (by simp) s1 s' h
     | patchFailed => exact hsome .patchFailed (by simp) s1 s' h
+    | dupId => exact hsome .dupId (by simp) s1 s' h
 
 theorem np_tryOp (op : Op) : NoPanic (tryOp op) := by
   intro s s' h
